@@ -499,6 +499,61 @@ func realContentLength(raw []byte) ([]byte, bool) {
 	return append(out, raw[k:]...), true
 }
 
+// dechunk rewrites the first request in raw from chunked transfer coding to Content-Length framing
+// with the body bytes that are really there (a chunk that announces more than follows contributes
+// what follows): the body stays, the announcements go.
+func dechunk(raw []byte) ([]byte, bool) {
+	end := bytes.Index(raw, []byte("\r\n\r\n"))
+	if end < 0 {
+		return nil, false
+	}
+	head := raw[:end+2]
+	i := indexFold(head, "transfer-encoding:")
+	if i < 0 || indexFold(head[i:], "chunked") < 0 {
+		return nil, false
+	}
+	j := i
+	for j < len(head) && head[j] != '\n' {
+		j++
+	}
+	var body []byte
+	rest := raw[end+4:]
+	for len(rest) > 0 {
+		k := 0
+		var n int
+		for k < len(rest) && isHexDigit(rest[k]) && n < 1<<28 {
+			c := rest[k]
+			switch {
+			case c <= '9':
+				n = n<<4 | int(c-'0')
+			case c >= 'a':
+				n = n<<4 | int(c-'a'+10)
+			default:
+				n = n<<4 | int(c-'A'+10)
+			}
+			k++
+		}
+		nl := bytes.Index(rest, []byte("\r\n"))
+		if k == 0 || nl < 0 || n == 0 {
+			break
+		}
+		rest = rest[nl+2:]
+		if n > len(rest) {
+			n = len(rest)
+		}
+		body = append(body, rest[:n]...)
+		rest = rest[n:]
+		if bytes.HasPrefix(rest, []byte("\r\n")) {
+			rest = rest[2:]
+		}
+	}
+	out := append([]byte(nil), head[:i]...)
+	out = append(out, "Content-Length: "+itoa(len(body))+"\r\n"...)
+	out = append(out, head[j+1:]...)
+	out = append(out, "\r\n"...)
+	return append(out, body...), true
+}
+
 // allocSite attributes the allocation of an over-budget request by evidence: the request is
 // measured again (cold pools, fresh app) with one component neutralised at a time; the component
 // whose removal alone brings the request under the limit (plus the cost of refilling cold pools,
@@ -515,10 +570,19 @@ func allocSite(e *ev.Env, c *ev.Case, mk func() *fiber.App, input []byte, limit,
 		{"flash-cookie", rename(fiber.FlashCookieName)},
 		{"compressed-body-inflate", rename("content-encoding")},
 		{"announced-content-length", realContentLength},
-		{"announced-chunk-size", rename("transfer-encoding")},
+		{"announced-chunk-size", dechunk},
 		{"multipart-form", rename("multipart/form-data")},
 		{"typed-body", rename("content-type")},
-		{"range-header", rename("range:")},
+		{"range-header", func(in []byte) ([]byte, bool) {
+			// rename the header field (not its colon): "\nRange:" -> "\nRangx:"
+			i := indexFold(in, "\nrange:")
+			if i < 0 {
+				return nil, false
+			}
+			out := append([]byte(nil), in...)
+			out[i+len("\nrange")-1] = 'x'
+			return out, true
+		}},
 	}
 	// what the same request costs with cold pools once every component is switched off: the
 	// kitchen-sink handler itself refills a good many pools (encoders, binders, decoders)
@@ -534,7 +598,7 @@ func allocSite(e *ev.Env, c *ev.Case, mk func() *fiber.App, input []byte, limit,
 	if e.Verbose {
 		println("allocSite: all components off ->", base, "threshold", threshold)
 	}
-	var explains []string
+	var explains, full []string
 	for _, f := range comps {
 		alt, ok := f.alt(input)
 		if !ok {
@@ -547,6 +611,14 @@ func allocSite(e *ev.Env, c *ev.Case, mk func() *fiber.App, input []byte, limit,
 		if !p && d <= threshold {
 			explains = append(explains, f.name)
 		}
+		// removal leaves (about) what the bare request costs: the component accounts for all of it
+		if !p && d <= base+base/2+32<<10 {
+			full = append(full, f.name)
+		}
+	}
+	if len(full) == 1 {
+		// another component may merely multiply the cost (a typed body is read several times)
+		explains = full
 	}
 	// "typed-body" is implied by the more specific multipart component
 	if len(explains) == 2 && explains[0] == "multipart-form" && explains[1] == "typed-body" {
